@@ -24,9 +24,9 @@ Empty == [st |-> "empty", src |-> 0, form |-> "", edits |-> <<>>]
 
 Init == slot = [d \in Slots |-> Empty] /\ trace = <<>>
 Log(d, a, x) == trace' = Append(trace, [d |-> d, a |-> a, x |-> x])
-Parse(d) == \E s \in 1..NSrc : \E f \in Forms :
-              /\ slot' = [slot EXCEPT ![d] = [st |-> "parsed", src |-> s, form |-> f, edits |-> <<>>]]
-              /\ Log(d, "parse", <<ToString(s), f>>)
+Parse(d) == \E s \in 1..NSrc : \E f \in Forms : \E k \in {"skip", "noskip"} :      \* k: with / without the skip_envs option
+              /\ slot' = [slot EXCEPT ![d] = [st |-> "parsed", src |-> s, form |-> f \o "/" \o k, edits |-> <<>>]]
+              /\ Log(d, "parse", <<ToString(s), f, k>>)
 Edit(d) == /\ slot[d].st = "parsed" /\ Len(slot[d].edits) < 2
            /\ \E e \in EditKinds :
                 /\ slot' = [slot EXCEPT ![d].edits = Append(@, e)]
